@@ -23,7 +23,7 @@ ASSUMPTIONS = ['table rules are deterministic, so BFS in the digraph of successf
 BUDGET = {'quick': 150, 'thorough': 1500}
 CHUNK = {'quick': 30, 'thorough': 120}
 REQUIRED = ['table_runs_checked', 'recovery_rule_runs_checked', 'trial_thresholds_checked', 'contact_steps_checked', 'sis_trial_counts_checked',
-            'enum_leaves', 'enum_laws_compared', 'perc_edges_checked']
+            'enum_leaves', 'enum_laws_compared', 'perc_edges_checked', 'perc_big_graphs']
 ENUM_SIMS = ['basic_discrete_SIR', 'percolation_based_discrete_SIR', 'basic_discrete_SIS', 'discrete_SIR']
 
 
@@ -32,6 +32,11 @@ def gen_cases(tier, seed):
     out = []
     n = 10000 if q else 400000
     kinds = ['table', 'table', 'trials', 'trials_sis', 'perc']
+    # size-gated code paths: a few large networks (tens of thousands of nodes) next to the many small ones
+    for j, N in enumerate([10500, 25000] if q else [10500, 25000, 60000, 130000]):
+        cs = case_seed(seed, PID + 'big', j)
+        r = random.Random(cs)
+        out.append({'kind': 'perc', 'big': {'n': N + r.randrange(100), 'k': r.choice([3, 4]), 'seed': cs, 'offset': r.choice([0, 7])}, 'p': r.choice([0.3, 0.5, 0.7]), 'seed': cs})
     for k in range(n):
         cs = case_seed(seed, PID, k)
         r = random.Random(cs)
@@ -351,9 +356,31 @@ def run_enum(case, res):
         res['sample'] = {'kind': 'enum', 'sim': name, 'graph': case['graph'], 'p': p, 'I0': case['I0'], 'leaves': leaves, 'distinct_trajectories': len(law)}
 
 
+def _big_graph(big):
+    # ring plus random chords: n nodes, about k*n edges, built from a seed (kept out of the case description: tens of thousands of edges)
+    import networkx as nx
+    rr = random.Random(big['seed'])
+    n = big['n']
+    G = nx.Graph()
+    off = big.get('offset', 0)
+    G.add_nodes_from(range(off, off + n))
+    for i in range(n):
+        G.add_edge(off + i, off + (i + 1) % n)
+        for _ in range(big['k'] - 1):
+            j = rr.randrange(n)
+            if j != i:
+                G.add_edge(off + i, off + j)
+    return G
+
+
 def run_perc(case, res):
     import EoN
-    G, lab = gen.build_graph(case['graph'])
+    from .. import stats
+    if case.get('big'):
+        G = _big_graph(case['big'])
+        bump(res, 'perc_big_graphs')
+    else:
+        G, lab = gen.build_graph(case['graph'])
     p = case['p']
     try:
         with rngprobe.monitor(seed=case['seed']) as px:
@@ -367,6 +394,28 @@ def run_perc(case, res):
     if set(H.nodes()) != set(G.nodes()) or H.is_directed():
         viol(res, 'percolate_network|same_node_set', {'H': H.number_of_nodes(), 'G': G.number_of_nodes()})
         return
+    if not cmps and edges:
+        # the trials did not go through the monitored generator (e.g. drawn in a block from numpy): judge the outcome itself.
+        # kept edges must be edges of G; on a large graph every block of the edge list is retained at rate p (Bernstein-bounded test)
+        if any(not G.has_edge(*e) for e in H.edges()):
+            viol(res, 'percolate_network|kept_edge_not_in_G', {})
+            return
+        if len(edges) < 2000:
+            res['inconclusive'] = 'percolate_network draws its trials from a source the monitor does not see; too few edges for the black-box test'
+            return
+        nb = 8
+        blk = max(1, len(edges) // nb)
+        worst = 1.0
+        for b in range(nb):
+            part = edges[b * blk:(b + 1) * blk] if b < nb - 1 else edges[b * blk:]
+            kept_b = sum(1 for e in part if H.has_edge(*e))
+            zt = stats.ztest(kept_b - p * len(part), p * (1 - p) * len(part))
+            worst = min(worst, zt['p'])
+            if (p in (0, 0.0) and kept_b) or (p in (1, 1.0) and kept_b != len(part)) or zt['p'] < stats.ALPHA_RUN / nb:
+                viol(res, 'percolate_network|each_edge_kept_with_probability_p', {'block': b, 'edges_in_block': len(part), 'kept': kept_b, 'p': p, 'N': G.number_of_nodes()})
+                return
+        bump(res, 'perc_blackbox_blocks_checked', nb)
+        return
     if len(cmps) != len(edges) or any(e[2] != p for e in cmps):
         viol(res, 'percolate_network|one_trial_per_edge_with_probability_p', {'trials': len(cmps), 'edges': len(edges), 'thresholds': [e[2] for e in cmps[:4]], 'p': p})
         return
@@ -374,7 +423,10 @@ def run_perc(case, res):
     if {frozenset(e) for e in H.edges()} != kept:
         viol(res, 'percolate_network|edge_kept_iff_success', {'kept': len(H.edges()), 'successes': len(kept)})
         return
-    if edges:
+    if edges and case.get('big'):
+        res['nontrivial'] = 'perc:big:%s:%s' % (case['big']['n'], p)
+        res['sample'] = {'kind': 'perc', 'big_graph': case['big'], 'edges': len(edges), 'p': p, 'kept': len(kept)}
+    elif edges:
         res['nontrivial'] = 'perc:%s:%s' % (gen.iso_key(case['graph']), p)
         res['sample'] = {'kind': 'perc', 'graph': case['graph'], 'p': p, 'kept': len(kept)}
 
